@@ -98,6 +98,25 @@ func runC19(cfg Config) {
 		return got
 	}
 
+	// callers that do not read payloads to their end (FormatDecoder.advance): the whole stream is walked with Next; of each
+	// payload the caller reads nothing, a little, all of it or asks for more than there is; the source can seek (bytes.Reader,
+	// os.File) or only read.  Model: FDec.walk; theorems walk_independent_of_reads, stream_ending_inside_payload_is_error
+	srcs := []string{"bytes", "file", "plain", "onebyte"}
+	walk := func(b []byte, tag string, src string) string {
+		var takes []string
+		for i, n := 0, rng.Intn(5); i < n; i++ {
+			takes = append(takes, fmt.Sprint([]int{0, 0, 1, rng.Intn(8), rng.Intn(300), 1 << 20}[rng.Intn(6)]))
+		}
+		line := "fmt.walk takes=" + strings.Join(takes, ",") + " src=" + src + " bytes=" + hx(b)
+		markCase(line)
+		got, _ := compareAlloc(rep, m, line, implFmtWalk)
+		rep.Count(line, len(b) > 16, "fmt.walk:"+tag, "fmt.walk-src:"+src, "fmt.walk-result:"+strings.SplitN(got, " ", 2)[0]+":"+errKindOf(got))
+		if got == "panic" {
+			monitor("decoder panicked", line, got, "")
+		}
+		return got
+	}
+
 	// (1) every element type x boundary sizes x tails, through all four entry points
 	tails := []int{0, 1, 7, 8, 9, 16, 24, 40, 200}
 	for _, t := range elemTypes {
@@ -112,6 +131,12 @@ func runC19(cfg Config) {
 				entry := le(64, desync.CaFormatEntry, desync.TarFeatureFlags, 0o100644, 0, 0, 0, 0)
 				one("arch.untar", append(append([]byte{}, entry...), b...), implUntar, "boundary", true)
 				one("arch.untar", b, implUntar, "boundary-noentry", false)
+				if t == desync.CaFormatPayload {
+					for _, src := range srcs {
+						walk(b, "boundary", src)
+						walk(append(append([]byte{}, entry...), b...), "boundary", src)
+					}
+				}
 			}
 		}
 	}
@@ -138,7 +163,11 @@ func runC19(cfg Config) {
 		if len(b) > 600 {
 			step = 1 + len(b)/300
 		}
+		if got := walk(b, "valid", srcs[it%len(srcs)]); !strings.HasPrefix(got, "ok") {
+			monitor("walking a valid archive fails", "fmt.walk bytes="+enc, got, "")
+		}
 		for k := 0; k < len(b); k += step {
+			walk(b[:k], "prefix", srcs[(it+k)%len(srcs)])
 			if got := one("arch.untar", b[:k], implUntar, "prefix", false); strings.HasPrefix(got, "ok") && k > 0 {
 				// a strict prefix that ends at an element boundary *between nodes of the root's
 				// children* still lacks the root's goodbye; the decoder does not require it (it
@@ -165,6 +194,7 @@ func runC19(cfg Config) {
 			}
 			binary.LittleEndian.PutUint64(nb[f*8:], v)
 			one("arch.untar", nb, implUntar, "mutated", j < 4)
+			walk(nb, "mutated", srcs[j%len(srcs)])
 		}
 	}
 	// (3) random bytes
